@@ -256,6 +256,86 @@ fn run_scenario(sc: &Value) {
         "ms":t0.elapsed().as_millis() as u64}));
 }
 
+/// C12: many create / install / drop cycles in ONE process (0-4 installs per cycle, mixed kinds, repeated targets,
+/// refusals, exits by scope end or by unwinding).  The first `full` cycles are recorded event by event (validated like
+/// any lifecycle trace); every cycle reports its mapping accounting.
+fn run_cycles(sc: &Value) {
+    panics::install_hook();
+    let pool = pool::make("rust");
+    let nf = 4;
+    let cycles = i(sc, "cycles") as usize;
+    let full = i(sc, "full") as usize;
+    emit_targets(&*pool, nf);
+    let rwx0 = watch::rwx_anon_count();
+    let mut x = crate::seed_from_env().wrapping_mul(0x9E3779B97F4A7C15) ^ (i(sc, "id") as u64) | 1;
+    let mut rnd = move || {
+        x ^= x << 13;
+        x ^= x >> 7;
+        x ^= x << 17;
+        x
+    };
+    let flav = ["raw", "rawfn", "closure", "fake", "unchecked"];
+    for c in 0..cycles {
+        interpose::QUIET_ALL.store(c >= full, SeqCst);
+        let k = (rnd() % 5) as usize;
+        let mut steps = Vec::new();
+        for _ in 0..k {
+            let f = 1 + rnd() % nf as u64;
+            let r = rnd() % 10;
+            let (kind, fake, flavour, gate) = if r < 2 { ("bool", if rnd() % 2 == 0 { "true" } else { "false" }, "bool", "ok") }
+                else if r == 2 { ("jump", "k1", "raw", "sig") }
+                else { ("jump", ["k1", "k2", "k3"][(rnd() % 3) as usize], flav[(rnd() % 5) as usize], "ok") };
+            steps.push(json!({"op":"install","f":f,"kind":kind,"fake":fake,"flavour":flavour,"site":0,"n":-1,"gate":gate,"fault":"none"}));
+            if gate != "ok" {
+                break;
+            }
+        }
+        if rnd() % 4 == 0 {
+            steps.push(json!({"op":"panic"}));
+        }
+        let m0 = (interpose::N_MMAP_OK.load(SeqCst), interpose::N_MUNMAP_OK.load(SeqCst), interpose::N_FOREIGN.load(SeqCst));
+        if c < full {
+            run_life(&*pool, nf, &json!({"kind":"inj","steps":steps}));
+        } else {
+            run_life_quiet(&*pool, &steps);
+        }
+        let m1 = (interpose::N_MMAP_OK.load(SeqCst), interpose::N_MUNMAP_OK.load(SeqCst), interpose::N_FOREIGN.load(SeqCst));
+        if c >= full {
+            emit(json!({"ev":"Cycle","i":c,"installs":k,"mmaps_ok":m1.0 - m0.0,"munmaps_ok":m1.1 - m0.1,"foreign":m1.2 - m0.2,
+                "live_after":interpose::owned_live(),"lock":lock_state()}));
+        }
+    }
+    interpose::QUIET_ALL.store(false, SeqCst);
+    emit(json!({"ev":"Maps","rwx_before":rwx0,"rwx_after":watch::rwx_anon_count(),"live":interpose::owned_live(),"cycles":cycles}));
+    probe(&*pool, nf, true);
+}
+
+/// a lifetime without per-step events
+fn run_life_quiet(pool: &dyn Pool, steps: &[Value]) {
+    let _ = catch_unwind(AssertUnwindSafe(|| {
+        let mut inj = in_lib(InjectorPP::new);
+        struct InLibOnDrop;
+        impl Drop for InLibOnDrop {
+            fn drop(&mut self) {
+                set_in_lib(true);
+            }
+        }
+        let _m = InLibOnDrop;
+        for st in steps {
+            match s(st, "op").as_str() {
+                "install" => {
+                    let spec = InstallSpec { f: i(st, "f") as usize, kind: s(st, "kind"), fake: s(st, "fake"), flavour: s(st, "flavour"),
+                        site: 0, n: -1, gate: s(st, "gate") };
+                    in_lib(|| pool.install(&mut inj, &spec));
+                }
+                "panic" => std::panic::panic_any(UserPanic),
+                _ => {}
+            }
+        }
+    }));
+    set_in_lib(false);
+}
+
 pub fn run(script: &str, out: &str) {
     crate::events::open(out);
     let text = std::fs::read_to_string(script).expect("script");
@@ -265,7 +345,11 @@ pub fn run(script: &str, out: &str) {
         }
         let sc: Value = serde_json::from_str(line).expect("scenario json");
         SCENARIO.store(i(&sc, "id") as u64, SeqCst);
-        child::run_logged(20, || run_scenario(&sc));
+        if s(&sc, "mode") == "cycles" {
+            child::run_logged(1200, || run_cycles(&sc));
+        } else {
+            child::run_logged(20, || run_scenario(&sc));
+        }
     }
 }
 
